@@ -34,6 +34,14 @@ type Ptr struct {
 	Path []int
 }
 
+// SymPtr is the address of a scalar array element at a symbolic index.
+type SymPtr struct {
+	Base Ptr // pointer to the *ArrayVal
+	Off  int
+	N    int
+	Idx  *Term
+}
+
 type StructVal struct{ F []Value }
 type ArrayVal struct{ E []Value }
 
